@@ -256,10 +256,48 @@ func genC06Strlen(r *plan.Rng) *plan.Plan {
 func genC06Recursion(r *plan.Rng) *plan.Plan {
 	p := &plan.Plan{Shape: "recursion"}
 	depth := []int{10, 500, 1000, 1021, 1022, 1023, 1024, 1025, 1500, 2047, 2048, 5000, 100000}[r.Intn(13)]
-	width := []int{0, 0, 1, 2, 8, 30, -1, -2}[r.Intn(8)]
+	width := []int{0, 0, 1, 2, 8, 30, -1, -2, -3, -3, -4}[r.Intn(11)]
 	param(p, "depth", int64(depth))
 	param(p, "width", int64(width))
 	var src string
+	if width == -3 {
+		// one spread call with more arguments than the operand stack may hold
+		n := []int{10, 500, 2000, 2040, 2047, 2048, 2049, 2100, 3000, 5000}[r.Intn(10)]
+		callee := []string{"cnt", "len2", "append"}[r.Intn(3)]
+		call := callee + "(big...)"
+		if callee == "append" {
+			call = "len(append([-1], big...))"
+		}
+		src = lines(
+			"cnt := func(...a) { return len(a) }",
+			"len2 := func(...a) { s := 0; for x in a { s += 1 }; return s }",
+			"big := range(0, "+itoa(n)+")",
+			"out := "+call)
+		param(p, "spreadN", int64(n))
+		if callee == "append" {
+			param(p, "spreadN", int64(n+1))
+		}
+		note(p, "kinds", "spread/"+callee+"/n"+itoa(n))
+		p.Scripts = []plan.Script{{Src: src, Inputs: c06Inputs()}}
+		return p
+	}
+	if width == -4 {
+		// recursion that forwards K arguments by spread: deep enough, the operand
+		// stack runs out inside the spread; the result is K or an error, nothing else
+		k := []int{3, 40, 200}[r.Intn(3)]
+		src = lines(
+			"fw := func(n, ...a) {",
+			"	if n == 0 {",
+			"		return len(a)",
+			"	}",
+			"	return fw(n - 1, a...) + 0",
+			"}",
+			"out := fw("+itoa(depth%1200)+", range(0, "+itoa(k)+")...)")
+		param(p, "forwardK", int64(k))
+		note(p, "kinds", "rec/forward/k"+itoa(k)+"/d"+itoa(depth%1200))
+		p.Scripts = []plan.Script{{Src: src, Inputs: c06Inputs()}}
+		return p
+	}
 	if width == -1 {
 		// variadic recursion through a spread call
 		src = lines(
